@@ -95,3 +95,17 @@ Theorem C13_boxed_nesting_any : forall st a b c cols cl,
   = attr_of_stream (evs_of (stream st (SConcat [a; b; c]) (mkOpts cols false))) cl.
 Proof. exact LawMaps.concat_nest_any. Qed.
 Print Assumptions C13_boxed_nesting_any.
+
+(* ... and with columns = false *)
+Theorem C13_boxed_nesting_map_lines : forall st a b c,
+  let F := SConcat [a; b; c] in
+  let R := SConcat [a; SConcat [b; c]] in
+  let L := SConcat [SConcat [a; b]; c] in
+  LawMaps.good F -> LawMaps.good R -> LawMaps.good L ->
+  LawMaps.small_final_lines st F -> LawMaps.small_final_lines st R -> LawMaps.small_final_lines st L ->
+  attr_of_map (fst (get_map st R false)) (source R) false = attr_of_map (fst (get_map st F false)) (source F) false /\
+  attr_of_map (fst (get_map st L false)) (source L) false = attr_of_map (fst (get_map st F false)) (source F) false /\
+  is_none (fst (get_map st R false)) = is_none (fst (get_map st F false)) /\
+  is_none (fst (get_map st L false)) = is_none (fst (get_map st F false)).
+Proof. exact LawMaps.boxed_nesting_map_lines. Qed.
+Print Assumptions C13_boxed_nesting_map_lines.
